@@ -1,5 +1,6 @@
 """C16 — cqueue consumes each event once; select! returns a fully run arm (structural clauses)."""
 from lib import *
+from props import shared
 from props.shared import *
 import macrowit
 
@@ -88,6 +89,7 @@ def check(ctx):
     ctx.guarded(PL, Agg("may::cqueue::PollError", "Finished", transitive=False), cnt_zero, "poll/finished-only-if-cnt-zero", "Finished only behind `cnt == 0`", pred_label="edge `cnt.load() == 0`")
     ctx.guarded(PL, Agg("may::cqueue::PollError", "Finished", transitive=False), variant_of_call(MQ_MPSC + "pop", "None"), "poll/finished-only-if-queue-empty", "Finished only after pop returned None",
                 pred_label="edge `ev_queue.pop()` is None")
+    shared.cqueue_finished_rules(ctx)
     # continue_bottom: Option::take
     CB = EV + "::continue_bottom"
     ctx.order(CB, Call(r"(std|core)::option::Option::take", on=EV + ".co", transitive=False), Call(r"may::coroutine_impl::run_coroutine", transitive=False), "bottom/take-then-run",
